@@ -3,6 +3,9 @@ import VProofs.Lemmas.TagFinal
 import VProofs.Lemmas.TagLocal
 import VProofs.Lemmas.TagWindow0
 import VProofs.Lemmas.TagBoundMain
+import VProofs.Lemmas.PermPredictor
+import VProofs.Lemmas.PermCells
+import VProofs.Lemmas.PermCellsNew
 /-!
 # C06 — Predicted tags equal the per-token linear classifiers
 
@@ -605,5 +608,197 @@ example : (Merge.mergeEntries PWT.add PWT.empty (C06_exAdded C06_overMerge)).map
 example : (Merge.mergeEntries (Merge.addC (okWT (fun _ => true) inI32) PWT.add) none
       (Merge.liftE (C06_exAdded C06_overMerge))).map (fun e => (e.1, e.2.isSome))
     = [(['a'], true), (['a', 'b'], true), (['b', 'a'], false)] := by decide
+
+end V
+
+/-! ## hash-map iteration orders in predictor construction are not observable
+
+Three kinds of hash maps are involved (predictor.rs, char_scorer/type_scorer `boundary_tag_scorer.rs`):
+* `PositionalWeightWithTag::tag_info : HashMap<(token_id, rel_position), Vec<i32>>` — iterated by `add_assign` (the OTHER map) in
+  `merger.add` and `merger.merge`, and by `…BoundaryTag::new` when it fills `tag_weight`.  Model: the list `PWT.tagInfo`.
+  `PWT.equiv` (same boundary weight, `tagInfo` lists that are permutations with distinct keys) is respected by every stage
+  (`C06_taginfo_add_equiv`, `C06_taginfo_addAll_equiv`, `C06_taginfo_merge_equiv`) and the table built from equivalent inputs is
+  the SAME (`C06_taginfo_fill_perm`, `C06_taginfo_build_perm`); end to end: `C06_taginfo_perm`.
+* the cells `tag_weight[token_id][rel_position] : HashMap<u32, WeightVector>` (pattern id ↦ vector) — only `insert`/`get`.
+  Model: a list in insertion order read with `reverse.find?`.  Any other listing gives the same `add_tag_scores`
+  (`C06_tagweight_cell_perm`), and for a predictor built by `Predictor.new` the same `predict_tags`/`predict`
+  (second half of `C06_taginfo_perm`).
+* `tag_predictor : HashMap<String, (u32, TagPredictor)>` — keyed lookup (`C06_tag_predictor_lookup_perm`). -/
+namespace V
+
+/-- entry lists with the same keys in the same order and `PWT.equiv` weights -/
+abbrev EntriesEquiv {α : Type} (es es' : List (List α × PWT)) : Prop := C06L.ListRel (C06L.ERel PWT.equiv) es es'
+
+/-- `add_assign` respects the equivalence (it iterates `b`'s map: any order of it, and of `a`'s, gives the same map) -/
+theorem C06_taginfo_add_equiv (a a' b b' : PWT) (ha : a.equiv a') (hb : b.equiv b') : (a.add b).equiv (a'.add b') :=
+  C06L.add_equiv ha hb
+
+/-- `merger.add` (all entries) respects it -/
+theorem C06_taginfo_addAll_equiv {α : Type} [DecidableEq α] (es es' init init' : List (List α × PWT))
+    (h : EntriesEquiv es es') (hi : EntriesEquiv init init') : EntriesEquiv (addAll PWT.add es init) (addAll PWT.add es' init') :=
+  C06L.addAll_rel PWT.equiv PWT.add PWT.add (fun _ _ _ _ ha hb => C06L.add_equiv ha hb) h hi
+
+/-- `merger.merge()` respects it: the merged weight of every pattern is the same map -/
+theorem C06_taginfo_merge_equiv {α : Type} [DecidableEq α] (es es' : List (List α × PWT)) (h : EntriesEquiv es es') :
+    EntriesEquiv (Merge.mergeEntries PWT.add PWT.empty es) (Merge.mergeEntries PWT.add PWT.empty es') :=
+  C06L.mergeEntries_rel PWT.equiv PWT.add PWT.add (fun _ _ _ _ ha hb => C06L.add_equiv ha hb) PWT.empty PWT.empty
+    C06L.equiv_empty h
+
+/-- filling `tag_weight` from equivalent merged entries gives the SAME table — not only row-wise permutations: a pattern
+contributes at most one entry to a cell, and the patterns are visited in id order — or a panic in both cases -/
+theorem C06_taginfo_fill_perm {α : Type} (cfg : Cfg) (es es' : List (List α × PWT)) (h : EntriesEquiv es es') (id : Nat)
+    (tw : List (List (List (Nat × WV)))) :
+    fillTagWeights cfg es id tw = fillTagWeights cfg es' id tw ∨
+    ∃ s₁ s₂, fillTagWeights cfg es id tw = .panic s₁ ∧ fillTagWeights cfg es' id tw = .panic s₂ :=
+  C06L.fill_perm cfg h id tw
+
+/-- the site strings can differ: `insertTagWeights` has two panic sites (`tag_weight[token_id]` and
+`…[rel_position]`), and on a table that is too small in both directions the entry visited first decides.  (Inside
+`…BoundaryTag::new` the table is sized from the entries, `C11_predictor_accepts`.) -/
+example :
+    let info₁ : List ((Nat × Nat) × List Int) := [((5, 0), [1]), ((0, 9), [1])]
+    let info₂ : List ((Nat × Nat) × List Int) := [((0, 9), [1]), ((5, 0), [1])]
+    info₁.Perm info₂ ∧ (info₁.map Prod.fst).Nodup ∧
+    insertTagWeights {} 0 info₁ [[[]]] = .panic "tag_weight[token_id]" ∧
+    insertTagWeights {} 0 info₂ [[[]]] = .panic "tag_weight[token_id][rel_position]: index out of bounds" := by
+  refine ⟨by decide, by decide, by decide, by decide⟩
+
+/-- `…BoundaryTag::new` on equivalent entry lists: the same scorer (patterns, weights and table), or a panic in both cases -/
+theorem C06_taginfo_build_perm {α : Type} [DecidableEq α] (cfg : Cfg) (window nTagModels : Nat)
+    (es es' : List (List α × PWT)) (h : EntriesEquiv es es') :
+    PermL.ResSim (buildBoundaryTag cfg window nTagModels es) (buildBoundaryTag cfg window nTagModels es') := by
+  have := C06L.buildBoundaryTagG_sim (add' := PWT.add) (shuf := id)
+    (fun a b ha hb => C06L.add_equiv (C06L.equiv_refl a ha) (C06L.equiv_refl b hb)) (fun a ha => C06L.equiv_refl a ha)
+    cfg window nTagModels h
+  rw [C06L.buildBoundaryTagG_id] at this
+  exact this
+
+/-- `add_tag_scores` on two scorers that differ only in the listing order of their cells (distinct pattern ids per cell) -/
+theorem C06_tagweight_cell_perm {α : Type} (sc sc' : PmaScorer α) (h : C06L.ScorerCellEq sc sc') (tid pos : Nat)
+    (states : List (Option Nat)) (scores : List Int) :
+    pmaAddTagScores sc tid pos states scores = pmaAddTagScores sc' tid pos states scores :=
+  C06L.pmaAddTagScores_cell h tid pos states scores
+
+/-- `Predictor.newG add' shuf` is `Predictor.new` with the two places where a `tag_info` order is chosen made parameters -/
+theorem C06_newG_generalises (cfg : Cfg) (m : WModel) (pt : Bool) :
+    Predictor.newG PWT.add id cfg m pt = Predictor.new cfg m pt :=
+  C06L.newG_id cfg m pt
+
+/-- the outcomes of the two constructions agree: equal, or a panic in both -/
+theorem C06_taginfo_perm_outcome (add' : PWT → PWT → PWT) (shuf : PWT → PWT) (hadd : AddLike add') (hshuf : ShufLike shuf)
+    (cfg : Cfg) (m : WModel) (pt : Bool) :
+    Predictor.new cfg m pt = Predictor.newG add' shuf cfg m pt ∨
+    ∃ s₁ s₂, Predictor.new cfg m pt = .panic s₁ ∧ Predictor.newG add' shuf cfg m pt = .panic s₂ :=
+  C06L.new_sim hadd hshuf cfg m pt
+
+/-- **order independence, end to end.**  Let `add'` be ANY implementation of `+=` on `PositionalWeightWithTag` that returns the
+map of `PWT.add` listed in some order (the order may depend on both operands), and `shuf` ANY re-listing of a merged `tag_info`
+before `…BoundaryTag::new` walks it.  If `Predictor.new` returns `p`, then
+1. the construction with `add'` and `shuf` returns the same `p` (so every later call agrees trivially), and
+2. every predictor `p'` obtained from `p` by re-listing the entries of its cells `tag_weight[token_id][rel_position]`
+   (`HashMap<u32, WeightVector>`; a permutation per cell, nothing else assumed) and by listing its token map `tag_predictor` in any
+   way that keeps the lookups (`C06L.SameLookup`; e.g. a permutation when the tokens are distinct,
+   `C06_tag_predictor_lookup_perm`) tags and segments every sentence exactly as `p` — this is what a serialise/deserialise round
+   trip, which re-inserts both kinds of maps in iteration order, does to a predictor. -/
+theorem C06_taginfo_perm (add' : PWT → PWT → PWT) (shuf : PWT → PWT) (hadd : AddLike add') (hshuf : ShufLike shuf)
+    (cfg : Cfg) (m : WModel) (pt : Bool) (p : Predictor) (hp : Predictor.new cfg m pt = .ok p) :
+    Predictor.newG add' shuf cfg m pt = .ok p ∧
+    ∀ p', C06L.PredCellPerm p p' → ∀ s, p'.predictTags s = p.predictTags s ∧ ∀ pid, p'.predict pid s = p.predict pid s := by
+  refine ⟨((C06L.new_sim hadd hshuf cfg m pt).ok_iff p).mp hp, ?_⟩
+  intro p' hpp s
+  have h := C06L.predCellEq_of_perm cfg m pt p p' hp hpp
+  exact ⟨(C06L.predictTags_cell h s).symm, fun pid => (C06L.predict_cell h pid s).symm⟩
+
+/-- conversely, whatever the permuted construction returns is what `Predictor.new` returns -/
+theorem C06_taginfo_perm_conv (add' : PWT → PWT → PWT) (shuf : PWT → PWT) (hadd : AddLike add') (hshuf : ShufLike shuf)
+    (cfg : Cfg) (m : WModel) (pt : Bool) (p : Predictor) (hp : Predictor.newG add' shuf cfg m pt = .ok p) :
+    Predictor.new cfg m pt = .ok p :=
+  ((C06L.new_sim hadd hshuf cfg m pt).ok_iff p).mpr hp
+
+/-- the token map `tag_predictor` (keys: the distinct tokens of the tag models) is read by keyed lookup only -/
+theorem C06_tag_predictor_lookup_perm (l l' : List (List Char × Nat × TagPredictor)) (hp : l.Perm l')
+    (hnd : (l.map Prod.fst).Nodup) (token : List Char) : lookupLast token l = lookupLast token l' :=
+  C06L.lookupLast_perm hp hnd token
+
+/-! ### non-vacuity: a model whose pattern `ba` collects four `tag_info` keys, built with every map listed in REVERSE order -/
+namespace C06PermEx
+
+/-- two tag models that share the character n-gram `ba` (at two relative positions each) and the n-gram `a` -/
+def model : WModel :=
+  { C01_exModel with
+    tagModels := [{ token := ['a'], tags := [[['x'], ['y']]],
+                    charNgrams := [⟨['b', 'a'], [⟨0, [1, 2]⟩, ⟨1, [3, 0]⟩]⟩, ⟨['a'], [⟨0, [0, 4]⟩]⟩],
+                    typeNgrams := [⟨[2], [⟨1, [0, 1]⟩]⟩], bias := [0, 0] },
+                  { token := ['b'], tags := [[['u'], ['v']]],
+                    charNgrams := [⟨['b', 'a'], [⟨1, [5, 0]⟩, ⟨0, [0, 6]⟩]⟩, ⟨['a'], [⟨1, [7, 7]⟩]⟩],
+                    typeNgrams := [], bias := [1, 0] }] }
+
+def addR (a b : PWT) : PWT := { a.add b with tagInfo := (a.add b).tagInfo.reverse }
+def shufR (a : PWT) : PWT := { a with tagInfo := a.tagInfo.reverse }
+
+theorem addR_like : AddLike addR := C06L.addLike_of_perm List.reverse List.reverse_perm
+theorem shufR_like : ShufLike shufR := C06L.shufLike_of_perm List.reverse List.reverse_perm
+
+def entries : List (List Char × PWT) := charEntriesT (dropW0 model) (model.tagModels.map (·.charNgrams))
+
+/-- the hypotheses hold for a non-trivial `add'`: the merged maps really are listed differently (`ba`: four keys) … -/
+example :
+    (Merge.mergeEntries PWT.add PWT.empty (addAll PWT.add entries [])).map (fun e => (e.1, e.2.tagInfo.map Prod.fst))
+      = [(['a'], [(0, 0), (1, 1)]), (['a', 'b'], []), (['b', 'a'], [(0, 0), (0, 1), (1, 1), (1, 0)])] ∧
+    (Merge.mergeEntries addR PWT.empty (addAll addR entries [])).map (fun e => (e.1, e.2.tagInfo.map Prod.fst))
+      = [(['a'], [(1, 1), (0, 0)]), (['a', 'b'], []), (['b', 'a'], [(1, 1), (0, 0), (0, 1), (1, 0)])] := by
+  refine ⟨by decide, by decide⟩
+
+/-- … and yet the table is the same one, with several entries per cell -/
+example :
+    (Predictor.newG addR shufR {} model true).map (fun p => p.charScorer.bind (·.tagWeight))
+      = (Predictor.new {} model true).map (fun p => p.charScorer.bind (·.tagWeight)) ∧
+    (Predictor.new {} model true).map (fun p => p.charScorer.bind (·.tagWeight))
+      = .ok (some [[[(0, WV.fixed [0, 4, 0, 0, 0, 0, 0, 0]), (2, WV.fixed [1, 6, 0, 0, 0, 0, 0, 0])],
+                    [(2, WV.fixed [3, 0, 0, 0, 0, 0, 0, 0])]],
+                   [[(2, WV.fixed [0, 6, 0, 0, 0, 0, 0, 0])],
+                    [(0, WV.fixed [7, 7, 0, 0, 0, 0, 0, 0]), (2, WV.fixed [12, 7, 0, 0, 0, 0, 0, 0])]]]) := by
+  refine ⟨by decide, by decide⟩
+
+/-- `PWT.equiv` and `C06_taginfo_add_equiv` on concrete values: both operands re-listed, a key in common (`(0, 1)`) -/
+example :
+    let a : PWT := { weight := some ⟨-1, [1, 2]⟩, tagInfo := [((0, 0), [1, 2]), ((0, 1), [3, 4]), ((1, 0), [5, 6])] }
+    let a' : PWT := { weight := some ⟨-1, [1, 2]⟩, tagInfo := [((1, 0), [5, 6]), ((0, 0), [1, 2]), ((0, 1), [3, 4])] }
+    let b : PWT := { weight := none, tagInfo := [((0, 1), [10, 10]), ((2, 2), [7, 8])] }
+    let b' : PWT := { weight := none, tagInfo := [((2, 2), [7, 8]), ((0, 1), [10, 10])] }
+    a.equiv a' ∧ b.equiv b' ∧ a.tagInfo ≠ a'.tagInfo ∧ b.tagInfo ≠ b'.tagInfo ∧
+    (a.add b).tagInfo = [((0, 0), [1, 2]), ((0, 1), [13, 14]), ((1, 0), [5, 6]), ((2, 2), [7, 8])] ∧
+    (a'.add b').tagInfo = [((1, 0), [5, 6]), ((0, 0), [1, 2]), ((0, 1), [13, 14]), ((2, 2), [7, 8])] ∧
+    (a.add b).tagInfo ≠ (a'.add b').tagInfo := by
+  refine ⟨⟨by decide, by decide, by decide⟩, ⟨by decide, by decide, by decide⟩, by decide, by decide, by decide, by decide,
+    by decide⟩
+
+/-- the distinct-keys clause of `PWT.equiv` is needed: with a repeated key in `b` (impossible for a hash map) the order of `b`
+matters, because `zip`-adding keeps the length of the vector that came first -/
+example :
+    let a : PWT := { weight := none, tagInfo := [] }
+    let b : PWT := { weight := none, tagInfo := [((0, 0), [1]), ((0, 0), [2, 3])] }
+    let b' : PWT := { weight := none, tagInfo := [((0, 0), [2, 3]), ((0, 0), [1])] }
+    b.tagInfo.Perm b'.tagInfo ∧ (a.add b).tagInfo = [((0, 0), [3])] ∧ (a.add b').tagInfo = [((0, 0), [3, 3])] := by
+  refine ⟨by decide, by decide, by decide⟩
+
+def cellSc : PmaScorer Char :=
+  { pats := [['a']], weights := [none],
+    tagWeight := some [[[(0, WV.fixed [1, 2, 0, 0, 0, 0, 0, 0]), (2, WV.fixed [3, 4, 0, 0, 0, 0, 0, 0]),
+      (5, WV.fixed [5, 6, 0, 0, 0, 0, 0, 0])], []]] }
+def cellSc' : PmaScorer Char :=
+  { pats := [['a']], weights := [none],
+    tagWeight := some [[[(5, WV.fixed [5, 6, 0, 0, 0, 0, 0, 0]), (0, WV.fixed [1, 2, 0, 0, 0, 0, 0, 0]),
+      (2, WV.fixed [3, 4, 0, 0, 0, 0, 0, 0])], []]] }
+
+/-- cells re-listed: `add_tag_scores` reads the same vectors (`C06_tagweight_cell_perm` is not vacuous) -/
+example :
+    C06L.ScorerCellEq cellSc cellSc' ∧
+    pmaAddTagScores cellSc 0 0 [some 2, none] [0, 0, 0, 0, 0, 0, 0, 0] = .ok [3, 4, 0, 0, 0, 0, 0, 0] ∧
+    pmaAddTagScores cellSc' 0 0 [some 2, none] [0, 0, 0, 0, 0, 0, 0, 0] = .ok [3, 4, 0, 0, 0, 0, 0, 0] := by
+  refine ⟨⟨rfl, rfl, ?_⟩, by decide, by decide⟩
+  exact .cons (.cons ⟨by decide, by decide⟩ (.cons ⟨List.Perm.refl _, by decide⟩ .nil)) .nil
+
+end C06PermEx
 
 end V
